@@ -403,8 +403,10 @@ def run(p, led, tier):
     for f in res.reachable_from(filt):
         if f.cls is not mem:
             continue
+        # local aliases of the limit (`limit = self.rate_limit  # read once`)
+        lim_alias = {t.id for a_ in walk_no_nested(f.node) if isinstance(a_, ast.Assign) and is_self_attr(a_.value, "rate_limit") for t in a_.targets if isinstance(t, ast.Name)}
         for n in walk_no_nested(f.node):
-            if isinstance(n, ast.Compare) and any(is_self_attr(x, "rate_limit") for x in ast.walk(n)):
+            if isinstance(n, ast.Compare) and any(is_self_attr(x, "rate_limit") or (isinstance(x, ast.Name) and x.id in lim_alias) for x in ast.walk(n)):
                 for x in ast.walk(n):
                     if isinstance(x, ast.Call) and isinstance(x.func, ast.Name) and x.func.id == "len" and x.args and is_self_attr(x.args[0]):
                         rl, WIN = f, x.args[0].attr
@@ -482,6 +484,13 @@ def run(p, led, tier):
     else:
         led.fail("C10-R3", key, where(rl, (out_of_lock or [rl.node])[0]), "the window is read or written outside a single lock region: concurrent requests can both pass the test")
     others = [(fi, k, n) for fi, k, n in package_attr_writes(p, WIN, None) if fi is not rl and not (fi.cls is mem and fi.name == "__init__")]
+    # a private helper of the membrane that is entered only from call sites holding the window's lock (pruning shared by the
+    # check and a read-only query) writes the window under that lock all the same; so does a write inside a region of it
+    if others and regs:
+        from ..locks import LockAnalysis
+        la_ = LockAnalysis(p, res, mem)
+        held_ = la_.held_on_entry(regs[0][1]) if regs[0][1] in la_.locks else set()
+        others = [(fi, k, n) for fi, k, n in others if not (fi.cls is mem and (fi.key in held_ or regs[0][1] in held_at(n, locks)))]
     if others:
         led.fail("C10-R3", "package ▸ other writers of the rate window", where(others[0][0], others[0][2]), "the rate window is modified outside the locked check")
 
